@@ -26,6 +26,14 @@ def run(chk):
     for thm in ('scalar_cmov_correct', 'fe_cmov_correct', 'fe_storage_cmov_correct', 'scalar_is_zero_correct'):
         chk.obligation('kernel theorem %s over the regenerated primitive' % thm, rc == 0 and os.path.exists(os.path.join(vlib.COQ, 'Kernel/CtPrimitives.vo')), log[-3000:])
     chk.coq()
+    # (1b) source-level lint of the constant-time layer: 66 functions that run on secret data must not gain a branch, an early return or a
+    # variable-time (_var) callee with respect to the committed baseline (corpus/ct_baseline.json, taken from the pinned tree)
+    import ct_lint, json
+    cur = ct_lint.measure(vlib.REPO); base = json.load(open(ct_lint.BASELINE))
+    bad = ct_lint.compare(cur, base)
+    chk.obligation('constant-time layer: no function on the secret path gains control flow or a variable-time callee (%d functions)' % len(base), not bad,
+                   '\n'.join('%s: %s' % b for b in bad))
+    chk.extra['ct_lint_functions'] = len(base)
     # (2) valgrind memcheck on the maintainers' constant-time test, built from the working tree
     names = ['default', 'int128_struct', 'int64'] if chk.quick() else list(CONFIGS)
     for c in names:
